@@ -286,6 +286,9 @@ impl Driver for C05 {
                             let got = q(sol.value);
                             let ok = got.as_ref().is_some_and(|g| (g - value).abs() <= &tol * qmax(&one(), &value.abs()));
                             if ok {
+                                if out.report.samples.is_empty() && out.unit < 6 {
+                                    out.sample(json!({"solver": solver, "model": lm.to_string(), "solver_value": sol.value, "certified_optimum": show(value)}));
+                                }
                                 out.tag(&format!("{solver}:agrees:optimal"));
                                 out.nontrivial(hash_str(&format!("{solver}|{}", serde_json::to_string(spec).unwrap())));
                             } else if xl.sense == rooc::OptimizationType::Satisfy {
